@@ -287,7 +287,7 @@ func Interactive(options Options) int { //nolint:funlen // we do have quite a fe
 		}
 		ctx = term.Context // context can be changed by shell run command through suspend/resume.
 		log.Debugf("Read: %q", rd)
-		if idx, ok := extractHistoryNumber(rd); ok {
+		if idx, ok := extractHistoryNumber(rd); ok && prev == "" { // like the commands below: not inside a pending multi-line input.
 			h := term.History()
 			slices.Reverse(h)
 			if idx < 1 || idx > len(h) {
